@@ -210,8 +210,9 @@ def extend(g, api):
             r'if\s+let\s*\(\s*true\s*,\s*Some\(\s*error_code\s*\)\s*\)\s*=\s*'
             r'\(\s*stream\.is_writable\(\)\s*,\s*stream\.stop_reason\s*\)\s*\{\s*'
             r'return\s+Err\(\s*WriteError::Stopped\(\s*error_code\s*\)\s*\)\s*;\s*\}', b)]
+        closed = r'(?:if\s*!\s*stream\.is_writable\(\)\s*\{\s*return\s+Err\(\s*WriteError::ClosedStream\s*\)\s*;\s*\}\s*)?'
         if n == 1 and len(m) == 1 and m[0].end() <= lim[0] and \
-           re.search(r'\.ok_or\(WriteError::ClosedStream\)\?\s*;\s*$', b[:m[0].start()]):
+           re.search(r'\.ok_or\(WriteError::ClosedStream\)\?\s*;\s*' + closed + r'$', b[:m[0].start()]):
             return 'true'
         raise TE('write_source: stop_reason test not recognised')
     g.term('writeStoppedFirst', 'Bool', f'{MOD}::SendStream::write_source stop test', write_stopped_first)
@@ -256,3 +257,35 @@ def extend(g, api):
             return 'true'
         raise TE('ingest: FIN-below-received test not recognised')
     g.term('ingestFinBelowEndIsError', 'Bool', f'{RECV}::Recv::ingest FIN below received data', ingest_fin_below_end)
+
+    # ---- Recv::reset: is an already reset stream noticed before the flow-control test
+    def reset_duplicate_first():
+        b = body(RECV, 'reset')
+        c = [m.start() for m in re.finditer(r'self\.credit_consumed_by\(\s*final_offset\.into\(\)\s*,\s*received\s*,\s*max_data\s*\)\s*\?\s*;', b)]
+        d = [m.start() for m in re.finditer(r'if\s+matches!\(\s*self\.state\s*,\s*RecvState::ResetRecvd\s*\{\s*\.\.\s*\}\s*\)\s*\{\s*return\s+Ok\(false\)\s*;\s*\}', b)]
+        v = [m.start() for m in re.finditer(r'lower than high water mark', b)]
+        a = [m.start() for m in re.finditer(r'self\.state\s*=\s*RecvState::ResetRecvd\s*\{', b)]
+        if len(c) != 1 or len(d) != 1 or len(v) != 1 or len(a) != 1:
+            raise TE('Recv::reset: expected one credit test, one redundancy test, one size validation, one state assignment')
+        if v[0] < c[0] < d[0] < a[0]:
+            return 'false'
+        if v[0] < d[0] < c[0] < a[0]:
+            return 'true'
+        raise TE('Recv::reset: order of the tests not recognised')
+    g.term('resetDuplicateBeforeCredit', 'Bool', f'{RECV}::Recv::reset order of redundancy and flow-control tests', reset_duplicate_first)
+
+    # ---- SendStream::write_source: is a finished / reset half reported before the connection-level limit test
+    def write_closed_first():
+        b = body(MOD, 'write_source')
+        lim = [m.start() for m in re.finditer(r'if\s+limit\s*==\s*0\s*\{', b)]
+        get = [m.end() for m in re.finditer(r'\.ok_or\(WriteError::ClosedStream\)\?\s*;', b)]
+        if len(lim) != 1 or len(get) != 1 or not get[0] < lim[0]:
+            raise TE('write_source: expected `.ok_or(WriteError::ClosedStream)?;` then one `if limit == 0 {`')
+        n = len(re.findall(r'!\s*stream\.is_writable\(\)', b))
+        if n == 0:
+            return 'false'
+        m = re.match(r'\s*if\s*!\s*stream\.is_writable\(\)\s*\{\s*return\s+Err\(\s*WriteError::ClosedStream\s*\)\s*;\s*\}', b[get[0]:])
+        if n == 1 and m:
+            return 'true'
+        raise TE('write_source: closed-half test not recognised')
+    g.term('writeClosedFirst', 'Bool', f'{MOD}::SendStream::write_source closed-half test', write_closed_first)
